@@ -56,6 +56,7 @@ type i38Base struct {
 	ids                               []string // commits
 	rtmpl                             []string // remote object templates: rtmpl[r+1] holds closure(r) + c0 + tagOldR
 	ltmpl                             []string // local object templates: ltmpl[l+1] holds closure(l) + closure(last) + c0 + the local tags
+	ltmplS                            []string // the same made with --depth=1: a shallow pusher (n >= 2 only)
 	tagT0, tagTLast, tagOldL, tagOldR string
 }
 
@@ -74,6 +75,12 @@ var i38Specs = []i38SpecKind{
 	{"+wildcard", func(S string) []string { return []string{"+refs/heads/*:refs/heads/*"} }},
 	{"rename", func(S string) []string { return []string{S + ":refs/heads/renamed"} }},
 	{"tags", func(S string) []string { return []string{"refs/tags/*:refs/tags/*"} }},
+	// the source is an object id instead of a reference (separate code path in
+	// the pusher: Remote.addObject); "<l>" is replaced by the local value of S
+	{"hash", func(S string) []string { return []string{"<l>:" + S} }},
+	// a delete and an update in one request (the pusher skips the object walk
+	// when every refspec is a delete)
+	{"delete+plain", func(S string) []string { return []string{":" + S, "refs/heads/k:refs/heads/k"} }},
 }
 
 type i38Opt struct {
@@ -85,6 +92,7 @@ type i38Opt struct {
 	Prune    bool
 	Atomic   bool
 	PushOpt  bool
+	Shallow  bool // the pusher is a shallow repository (depth 1 at each of its tips)
 }
 
 var i38Opts = []i38Opt{
@@ -102,6 +110,8 @@ var i38Opts = []i38Opt{
 	{Name: "push-option", PushOpt: true, Tracking: "fresh"},
 	{Name: "force+prune", Force: true, Prune: true, Tracking: "fresh"},
 	{Name: "stale-tracking", Tracking: "stale"},
+	{Name: "shallow-pusher", Tracking: "fresh", Shallow: true},
+	{Name: "shallow-pusher+force", Tracking: "fresh", Shallow: true, Force: true},
 }
 
 type i38Case struct {
@@ -170,12 +180,22 @@ func i38Setup(k i38Case) (i38State, bool) {
 		// decoy: the tracking ref a lookup that strips "refs/heads/" everywhere would find
 		st.local["refs/remotes/origin/a"] = b.ids[k.r]
 	}
+	if o.Shallow && n < 2 {
+		return st, false // a single root commit cannot be cut off from anything
+	}
 	// a remote-tracking ref can only name a commit the pusher has
 	known := b.dag.Reach(n - 1)
+	if o.Shallow {
+		known = map[int]bool{n - 1: true}
+	}
 	known[0] = true
 	if k.l >= 0 {
-		for c := range b.dag.Reach(k.l) {
-			known[c] = true
+		if o.Shallow {
+			known[k.l] = true
+		} else {
+			for c := range b.dag.Reach(k.l) {
+				known[c] = true
+			}
 		}
 	}
 	for name, id := range st.local {
@@ -188,6 +208,14 @@ func i38Setup(k i38Case) (i38State, bool) {
 		}
 	}
 	st.specs = i38Specs[k.spec].Specs(S)
+	for i, sp := range st.specs {
+		if strings.Contains(sp, "<l>") {
+			if k.l < 0 {
+				return st, false // no object to name
+			}
+			st.specs[i] = strings.Replace(sp, "<l>", b.ids[k.l], 1)
+		}
+	}
 	switch o.Lease {
 	case "track":
 		st.hasLease = true
@@ -300,6 +328,8 @@ func (b *i38Base) i38Model(st i38State, o i38Opt, client string) (upds []i38Upd,
 		default:
 			if v, ok := st.local[src]; ok {
 				decide(dst, v, forced)
+			} else if iIsHex(src) {
+				decide(dst, src, forced)
 			} else {
 				fatal = "src refspec matches nothing"
 			}
@@ -391,6 +421,10 @@ func i38BuildBase(c *fw.Ctx, idx int, d fw.DAG, home string) *i38Base {
 		}
 		gh.In(rd).MustRun(args...)
 		os.RemoveAll(filepath.Join(rd, "refs", "tmp"))
+		if (r+1)%2 == 1 {
+			// every second remote keeps its objects in one pack instead of loose files
+			gh.In(rd).MustRun("repack", "-a", "-d", "-q")
+		}
 		b.rtmpl = append(b.rtmpl, rd)
 	}
 	// local object templates: only what the pusher's own refs reach (the remote's
@@ -407,7 +441,23 @@ func i38BuildBase(c *fw.Ctx, idx int, d fw.DAG, home string) *i38Base {
 		os.RemoveAll(filepath.Join(ld, "refs", "tmp"))
 		os.MkdirAll(filepath.Join(ld, "refs", "heads"), 0o755)
 		os.MkdirAll(filepath.Join(ld, "refs", "tags"), 0o755)
+		if (l+1)%2 == 0 {
+			// every second pusher keeps its objects in one pack instead of loose files
+			gh.In(ld).MustRun("repack", "-a", "-d", "-q")
+		}
 		b.ltmpl = append(b.ltmpl, ld)
+		// shallow twin: the same tips, each cut off below itself (depth 1)
+		if n >= 2 {
+			sd := c.TempDir("c38ls")
+			gh.MustRun("init", "-q", "--bare", sd)
+			// (file:// so that the depth is honoured: a plain local path is not a transport)
+			sargs := append([]string{"fetch", "-q", "--depth=1", "--no-tags", "--no-write-fetch-head", "file://" + dir}, args[5:]...)
+			gh.In(sd).MustRun(sargs...)
+			os.RemoveAll(filepath.Join(sd, "refs", "tmp"))
+			os.MkdirAll(filepath.Join(sd, "refs", "heads"), 0o755)
+			os.MkdirAll(filepath.Join(sd, "refs", "tags"), 0o755)
+			b.ltmplS = append(b.ltmplS, sd)
+		}
 	}
 	return b
 }
@@ -423,6 +473,24 @@ func i38WriteRefs(dir string, refs map[string]string) error {
 		}
 	}
 	return nil
+}
+
+// i38WritePacked stores refs in packed-refs (no header: git then peels tags
+// itself); the reference `loose`, when present, is also written as a loose
+// file and gets the value `stale` in packed-refs (the loose file wins).
+func i38WritePacked(dir string, refs map[string]string, loose, stale string) error {
+	var b strings.Builder
+	for _, name := range iSortedKeys(refs) {
+		id := refs[name]
+		if name == loose {
+			if err := i38WriteRefs(dir, map[string]string{name: id}); err != nil {
+				return err
+			}
+			id = stale
+		}
+		fmt.Fprintf(&b, "%s %s\n", id, name)
+	}
+	return os.WriteFile(filepath.Join(dir, "packed-refs"), []byte(b.String()), 0o644)
 }
 
 type i38Run struct {
@@ -468,10 +536,22 @@ func (r *i38Run) prepare(k i38Case, st i38State) (local, remote string) {
 	c := r.c
 	local = c.TempDir("c38l")
 	remote = c.TempDir("c38r")
-	c.Must(iCopyDir(k.b.ltmpl[k.l+1], local), "copy local template")
+	ltmpl := k.b.ltmpl[k.l+1]
+	if i38Opts[k.opt].Shallow {
+		ltmpl = k.b.ltmplS[k.l+1]
+	}
+	c.Must(iCopyDir(ltmpl, local), "copy local template")
 	c.Must(iCopyDir(k.b.rtmpl[k.r+1], remote), "copy remote template")
-	c.Must(i38WriteRefs(local, st.local), "write local refs")
-	c.Must(i38WriteRefs(remote, st.remote), "write remote refs")
+	// references: loose files, or (every second (l, r) pair) a packed-refs file;
+	// on the packed side the subject branch additionally has a stale packed
+	// value hidden by its loose file
+	if (k.l+k.r)%2 != 0 {
+		c.Must(i38WritePacked(local, st.local, st.S, k.b.ids[0]), "write local refs")
+		c.Must(i38WritePacked(remote, st.remote, st.S, k.b.ids[0]), "write remote refs")
+	} else {
+		c.Must(i38WriteRefs(local, st.local), "write local refs")
+		c.Must(i38WriteRefs(remote, st.remote), "write remote refs")
+	}
 	cfg := fmt.Sprintf("[remote \"origin\"]\n\turl = file://%s\n\tfetch = +refs/heads/*:refs/remotes/origin/*\n", remote)
 	f, err := os.OpenFile(filepath.Join(local, "config"), os.O_APPEND|os.O_WRONLY, 0o644)
 	c.Must(err, "open local config")
@@ -643,7 +723,13 @@ func i38QuickKeep(d fw.DAG, l, r, name int, spec, opt string) bool {
 		return n <= 2 && opt == "none"
 	}
 	switch opt {
-	case "none", "force", "lease-track-fresh", "lease-track-stale", "lease-explicit-stale", "lease-other-ref", "prune", "force+prune":
+	case "lease-track-fresh":
+		// on an already forced refspec a matching lease adds nothing: those cases
+		// gave their place to the shallow pusher / object-id source / mixed request
+		return spec == "plain" || spec == "delete"
+	case "prune", "force+prune":
+		return spec != "delete" // a delete refspec has no source side to prune against
+	case "none", "force", "lease-track-stale", "lease-explicit-stale", "lease-other-ref", "shallow-pusher":
 		return true
 	}
 	return n <= 2 && spec == "plain"
@@ -760,6 +846,12 @@ func runC38(c *fw.Ctx) {
 		exs := []string{i36GG}
 		if withGit {
 			exs = append(exs, i36GX, i36XG, "git->git")
+			if o.Shallow {
+				// a shallow git pusher follows rules of its own (updates that would make
+				// the remote shallow are refused by the server): the rule table is about
+				// true ancestry, only the go-git client is judged by it here
+				exs = []string{i36GG, i36GX}
+			}
 		}
 		if os.Getenv("C38_CONF") != "" { // debugging aid: only the git->git conformance replay
 			exs = []string{"git->git"}
